@@ -122,6 +122,15 @@ def family(case) -> tuple[dict, str, str]:
     """(templates, entry name, expectation)"""
     edge, kinds, d, fan = case["edge"], case["kinds"], case["d"], case.get("fan", 1)
     t: dict = {}
+    if case.get("via") == "extends-block" and edge in ("include", "render"):
+        # the recursive calls sit in a block that overrides a block of a base template
+        t["base"] = "B{% block c %}{% endblock %}"
+        t["t0"] = "{% extends 'base' %}{% block c %}a" + wrap(kinds, d, ("{% " + edge + " 't0' %}") * fan) + "{% endblock %}"
+        return t, "t0", "depth"
+    if case.get("via") == "macro" and edge in ("include", "render"):
+        # ... or in a macro that the partial defines and calls
+        t["t0"] = "{% macro m %}a" + wrap(kinds, d, ("{% " + edge + " 't0' %}") * fan) + "{% endmacro %}{% call m %}"
+        return t, "t0", "depth"
     if edge == "include":
         t["t0"] = "a" + wrap(kinds, d, "{% include 't0' %}" * fan)
         return t, "t0", "depth"
@@ -249,7 +258,7 @@ def evaluate(case) -> Verdict:
 
     o, steps, cpu = run_traced(go, RENDER_BUDGET)
     where = f"{case['edge']}:{'+'.join(case['kinds'])}"
-    desc = f"edge={case['edge']} kinds={case['kinds']} depth={case['d']} fan={case.get('fan', 1)} mode={mode} api={case.get('api', 'sync')}"
+    desc = f"edge={case['edge']} kinds={case['kinds']} depth={case['d']} fan={case.get('fan', 1)} mode={mode} api={case.get('api', 'sync')} via={case.get('via', '-')}"
     if o[0] == "budget":
         v.fail(f"render:step-budget:{case['edge']}:{mode}", f"{desc}: no result within {RENDER_BUDGET} line events")
     elif o[0] == "crash":
@@ -447,6 +456,20 @@ def _campaign(ctx: core.Ctx, tier: str, shard: int, nshards: int) -> None:
                         ctx.run({"kind": "family", "edge": edge, "kinds": ["if"], "d": d, "mode": mode, "fan": fan}, enumerated=True)
                         if not quick or (j // nshards) % 2:
                             ctx.run({"kind": "family", "edge": edge, "kinds": ["if"], "d": d, "mode": mode, "fan": fan, "api": "async"}, enumerated=True)
+    for edge in ("include", "render"):
+        for via in ("extends-block", "macro"):
+            if via == "macro" and edge == "include":
+                continue  # (include is not allowed inside a macro)
+            for fan in (1, 2, 3):
+                for d in (0, 3, 12):
+                    for mode in ("lax", "strict"):
+                        for api in ("sync", "async"):
+                            j += 1
+                            if j % nshards == shard and (not quick or (j // nshards + ctx.seed) % 2 == 0 or (fan == 2 and d == 0)):
+                                case = {"kind": "family", "edge": edge, "kinds": ["if"], "d": d, "mode": mode, "fan": fan, "via": via}
+                                if api == "async":
+                                    case["api"] = "async"
+                                ctx.run(case, enumerated=True)
     core.drive(sources(), ctx.run, n=(4000 if quick else 100000) // nshards, seed=core.sub_seed(ctx.seed, shard))
 
 
